@@ -9,12 +9,13 @@ Ops (tokens separated by one space; strings are `CV.encS` tokens; `-` is an empt
   list  <peer> <names>                                  names = a,b,…
   csn   <peer> <service>
   dump
-  exp   <peer> <cfg> <typical> <chains> <connect>       cfg = name;peer+peer+…,…
+  exp   <peer> <cfg> <typical> <chains> <connect> <tgw> cfg = name;peer+peer+…,…   chains = name;target,…
   xreset | xlist <names> | xdata <service> <payload-number>    the exporter's duplicate suppression (CV.PeerExport)
 chk = node~cid~sid~sname~status
 -/
 import CV.Peer
 import CV.PeerExport
+import CV.PeerIdx
 namespace CV.Engine.C17
 open CV CV.Peer
 
@@ -54,6 +55,13 @@ def parseEntry (tok : String) : Option ExpEntry :=
       pure ⟨n, ps⟩
   | _ => none
 
+def parseChain (tok : String) : Option Chain :=
+  match tok.splitOn ";" with
+  | [n, t] => do
+      let n ← decS n; let t ← decS t
+      pure ⟨n, t⟩
+  | _ => none
+
 def errName : Err → String
   | .missingNode => "missing-node"
   | .missingService => "missing-service"
@@ -77,10 +85,15 @@ def encRes (r : Res) : String :=
 def encChk (k : Chk) : String :=
   s!"{encS k.cid}~{encS k.sid}~{encS k.sname}~{encS k.status}~{encS k.node}"
 
-def dump (c : Cat) : String :=
-  let ns := c.nodes.map fun x => s!"{encS x.peer};{encS x.name};{encS x.id};{encS x.addr}"
-  let ss := c.svcs.map fun x => s!"{encS x.peer};{encS x.node};{encS x.sid};{encS x.name};{x.port}"
-  let ks := c.chks.map fun x => s!"{encS x.peer};{encS x.node};{encS x.cid};{encS x.sid};{encS x.sname};{encS x.status}"
+def encIx (ix : Ix) (k : IxKey) : String :=
+  match ixGet ix k with
+  | some e => s!"@{e.create}/{e.modify}"
+  | none => "@?"
+
+def dump (c : Cat) (ix : Ix) : String :=
+  let ns := c.nodes.map fun x => s!"{encS x.peer};{encS x.name};{encS x.id};{encS x.addr}{encIx ix (nodeKey x)}"
+  let ss := c.svcs.map fun x => s!"{encS x.peer};{encS x.node};{encS x.sid};{encS x.name};{x.port}{encIx ix (svcKey x)}"
+  let ks := c.chks.map fun x => s!"{encS x.peer};{encS x.node};{encS x.cid};{encS x.sid};{encS x.sname};{encS x.status}{encIx ix (chkKey x)}"
   s!"N={encList (sortStrs ns)} S={encList (sortStrs ss)} C={encList (sortStrs ks)}"
 
 def encCSN (x : CSN) : String :=
@@ -118,63 +131,73 @@ def stepX (x : PeerX.St) (toks : List String) : Option (PeerX.St × String) :=
     | _, _ => none
   | _ => none
 
-def stepN (c : Cat) (toks : List String) : Cat × String :=
+/-- new catalog, answer, and the Raft commands that were issued (each consumes one index) -/
+def stepN (c : Cat) (ix : Ix) (toks : List String) : Cat × String × List Op :=
   match toks with
-  | ["reset"] => ({}, "ok")
-  | ["dump"] => (c, dump c)
+  | ["dump"] => (c, dump c ix, [])
   | ["reg", p, n, id, a, svc, ks] =>
     match decS p, decS n, decS id, decS a, parseSvc svc, parseChks ks with
     | some p, some n, some id, some a, some svc, some ks =>
       match register c ⟨p, ⟨n, id, a⟩, svc, ks⟩ with
-      | .ok c' => (c', "ok")
-      | .error e => (c, "err:" ++ errName e)
-    | _, _, _, _, _, _ => (c, "bad-op")
+      | .ok c' => (c', "ok", [.reg ⟨p, ⟨n, id, a⟩, svc, ks⟩])
+      | .error e => (c, "err:" ++ errName e, [.reg ⟨p, ⟨n, id, a⟩, svc, ks⟩])
+    | _, _, _, _, _, _ => (c, "bad-op", [])
   | ["dereg", p, n, i, k] =>
     match decS p, decS n, decS i, decS k with
     | some p, some n, some i, some k =>
       let op : Op := if i ≠ "" then .deregSvc p n i else if k ≠ "" then .deregChk p n k else .deregNode p n
       match applyOp c op with
-      | .ok c' => (c', "ok")
-      | .error e => (c, "err:" ++ errName e)
-    | _, _, _, _ => (c, "bad-op")
+      | .ok c' => (c', "ok", [op])
+      | .error e => (c, "err:" ++ errName e, [op])
+    | _, _, _, _ => (c, "bad-op", [])
   | ["upd", p, sn, insts] =>
     match decS p, decS sn, (decOpt "," insts).mapM parseInst with
     | some p, some sn, some is =>
       let r := handleUpdate c p sn is
-      (r.cat, encRes r)
-    | _, _, _ => (c, "bad-op")
+      (r.cat, encRes r, r.log)
+    | _, _, _ => (c, "bad-op", [])
   | ["list", p, names] =>
     match decS p, (decOpt "," names).mapM decS with
     | some p, some ns =>
       let r := handleList c p ns
-      (r.cat, encRes r)
-    | _, _ => (c, "bad-op")
+      (r.cat, encRes r, r.log)
+    | _, _ => (c, "bad-op", [])
   | ["csn", p, sn] =>
     match decS p, decS sn with
     | some p, some sn =>
       match csn c p sn with
-      | .ok xs => (c, encList (sortStrs (xs.map encCSN)))
-      | .error e => (c, "err:" ++ errName e)
-    | _, _ => (c, "bad-op")
-  | ["exp", p, cfg, typ, chains, conn] =>
+      | .ok xs => (c, encList (sortStrs (xs.map encCSN)), [])
+      | .error e => (c, "err:" ++ errName e, [])
+    | _, _ => (c, "bad-op", [])
+  | ["exp", p, cfg, typ, chains, conn, tgw] =>
     match decS p, (decOpt "," cfg).mapM parseEntry, (decOpt "," typ).mapM decS,
-          (decOpt "," chains).mapM decS, (decOpt "," conn).mapM decS with
-    | some p, some cfg, some typ, some chains, some conn =>
+          (decOpt "," chains).mapM parseChain, (decOpt "," conn).mapM decS, (decOpt "," tgw).mapM decS with
+    | some p, some cfg, some typ, some chains, some conn, some tgw =>
       let s := (sortStrs ((exportedFor cfg typ p).map encS)).eraseDups
-      let d := (sortStrs ((exportedChains cfg typ chains conn p).map encS)).eraseDups
-      (c, s!"S={encList s} D={encList d}")
-    | _, _, _, _, _ => (c, "bad-op")
-  | _ => (c, "bad-op")
+      let d := (sortStrs ((exportedChains cfg typ chains conn tgw p).map encS)).eraseDups
+      (c, s!"S={encList s} D={encList d}", [])
+    | _, _, _, _, _, _ => (c, "bad-op", [])
+  | _ => (c, "bad-op", [])
 
-def step (st : Cat × PeerX.St) (toks : List String) : (Cat × PeerX.St) × String :=
+/-- importer state: catalog, index layer, next Raft index (the harness applies its first command at index 11) -/
+structure ISt where
+  cat  : Cat := {}
+  ix   : Ix := []
+  next : Nat := 11
+
+def step (st : ISt × PeerX.St) (toks : List String) : (ISt × PeerX.St) × String :=
   if !toks.all tokNormal then (st, "non-normal-name")
   else match stepX st.2 toks with
     | some (x', out) => ((st.1, x'), out)
     | none =>
       match toks with
       | "xreset" :: _ | "xlist" :: _ | "xdata" :: _ => (st, "bad-op")
-      | _ => let (c', out) := stepN st.1 toks; ((c', st.2), out)
+      | ["reset"] => (({}, st.2), "ok")
+      | _ =>
+        let (c', out, log) := stepN st.1.cat st.1.ix toks
+        let (_, ix', next') := ixRun st.1.cat st.1.ix st.1.next log
+        (({ cat := c', ix := ix', next := next' }, st.2), out)
 
-def engine : Engine := { State := Cat × PeerX.St, init := ({}, {}), step := step }
+def engine : Engine := { State := ISt × PeerX.St, init := ({}, {}), step := step }
 
 end CV.Engine.C17
